@@ -86,6 +86,16 @@ func (r *BatchCutter) Cut(force bool) (Result, error) {
 	}
 
 	maxOperationsPerBatch := currentProtocol.Protocol().MaxOperationCount
+
+	// a batch is written with the protocol version its operations were queued under: it is that version's maximum
+	// operation count that applies to it (the two differ while operations queued before an upgrade are still pending)
+	if pending > 0 {
+		if head, e := r.pendingBatch.Peek(1); e == nil && len(head) == 1 {
+			if queuedProtocol, e := r.client.Get(head[0].ProtocolVersion); e == nil {
+				maxOperationsPerBatch = queuedProtocol.Protocol().MaxOperationCount
+			}
+		}
+	}
 	if !force && pending < maxOperationsPerBatch {
 		return Result{Pending: pending}, nil
 	}
